@@ -376,6 +376,7 @@ class Exec:
         if isinstance(f, ast.Name):
             n = f.id
             if n in ('any', 'all') and isinstance(e.args[0], ast.GeneratorExp): return self.genexp(e.args[0], st, n)
+            if n == 'isinstance': return self.callees.get('isinstance', lambda *a: VBool(z3.BoolVal(True)))(self, st, None, [self.ev(e.args[0], st), e.args[1]], {})
             if n in self.callees: return self.callees[n](self, st, None, [self.ev(a, st) for a in e.args], kwargs)
             if n == '_': return OPAQUE
             if n == 'len':
@@ -385,7 +386,6 @@ class Exec:
                 if isinstance(v, VTuple): return VInt(z3.IntVal(len(v.items)))
                 if isinstance(v, VFunc): return v.fn(self, st, None, ['__len__'], {})
                 raise Unsupported('len')
-            if n == 'isinstance': return self.callees.get('isinstance', lambda *a: VBool(z3.BoolVal(True)))(self, st, None, [self.ev(e.args[0], st), e.args[1]], {})
             if n == 'set' and not e.args: return st.new_set()
             if n == 'bool' and len(e.args) == 1: return VBool(self.truthy(st, self.ev(e.args[0], st)))
             if n == 'copy':
